@@ -2,12 +2,12 @@
    Each property cluster contributes a fragment D_xxx.v exporting a function
    [string -> val -> option val]; the first fragment that knows the op answers. *)
 From Coq Require Import List String.
-From NGS Require Import Val D_C09 D_C03 D_C20.
+From NGS Require Import Val D_C09 D_C03 D_C20 D_C01 D_C13.
 Import ListNotations.
 Open Scope string_scope.
 
 Definition fragments : list (string -> val -> option val) :=
-  [ d_c09; d_c03; d_c20 ].
+  [ d_c09; d_c03; d_c20; d_c01; d_c13 ].
 
 Fixpoint first_some (fs : list (string -> val -> option val)) (op : string) (a : val) : val :=
   match fs with
